@@ -645,6 +645,28 @@ def j5_bijection_maps(ctx) -> None:
                     ctx.ok("J5", "_populate_json_map: new inner dict {id(second): value}")
                 else:
                     ctx.violation("J5", n, f"inner dictionary entry `{norm(k)}: {norm(v)}` is not {{id of second class: value}}")
+    # every (first, second, value) triple is stored, whether or not the first class was seen before
+    body_txt = [norm(st) for st in loop.body]
+    stores_new = [n for n in walk_local(loop) if isinstance(n, ast.Assign) and isinstance(n.targets[0], ast.Subscript) and norm(n.targets[0].value) == jm
+                  and isinstance(n.value, ast.Dict) and len(n.value.keys) == 1]
+    stores_in = [n for n in walk_local(loop) if isinstance(n, ast.Assign) and isinstance(n.targets[0], ast.Subscript)
+                 and (isinstance(n.targets[0].value, ast.Subscript) and norm(n.targets[0].value.value) == jm
+                      or isinstance(n.targets[0].value, ast.Call) and norm(n.targets[0].value.func) == f"{jm}.setdefault")]
+    covered = False
+    for n in stores_in:
+        if C.stmt_of(n) in loop.body and isinstance(n.targets[0].value, ast.Call):
+            covered = True  # json_map.setdefault(first, {})[second] = value, unconditional
+    if stores_new and stores_in:
+        g_new = C.guard_texts(f, stores_new[0])
+        g_in = C.guard_texts(f, stores_in[0])
+        neg = {(t, not p) for t, p in g_new}
+        if any(t.endswith(f"not in {jm}") or t.endswith(f"in {jm}") for t, _ in g_new) and (neg & g_in):
+            covered = True
+    if covered:
+        ctx.ok("J5", "_populate_json_map stores every pair, whether or not its first class already has an entry")
+    else:
+        ctx.violation("J5", loop, "some pairs are never stored: when the first class already has an entry the (second class, value) pair must still be added "
+                      "(`json_map[first][second] = value`); otherwise only one pairing per domain class survives the round trip")
     # reader orientation
     fd = P.need_method("Bijection", "from_dict", own=True)
     ctx.analysed(fd)
@@ -672,3 +694,27 @@ def j5_bijection_maps(ctx) -> None:
         ctx.ok("J5", "to_jsonable serialises both the order map and the index data")
     else:
         ctx.violation("J5", tj.node, f"Bijection.to_jsonable serialises {srcs}; expected the order map and the index data", construct="Bijection.to_jsonable maps")
+
+
+def j6_all_rules_written(ctx) -> None:
+    """The specification writes *every* rule it holds (the reader rebuilds rules_dict from
+    exactly that list; a filtered list loses classes, e.g. an empty start class)."""
+    P = ctx.P
+    m = P.need_method("CombinatorialSpecification", "to_jsonable", own=True)
+    W = _written_keys_of(P, m, 0)
+    v = W.get("rules")
+    if v is None:
+        ctx.violation("J6", m.node, "CombinatorialSpecification.to_jsonable no longer writes its rules", construct="CombinatorialSpecification.to_jsonable rules")
+        return
+    comps = [n for n in ast.walk(v) if isinstance(n, (ast.ListComp, ast.GeneratorExp))]
+    ok = bool(comps) and len(comps[0].generators) == 1 and not comps[0].generators[0].ifs and norm(comps[0].generators[0].iter) in ("self", "self.rules_dict.values()")
+    if ok:
+        ctx.ok("J6", "the specification writes every rule it holds, unfiltered")
+    else:
+        ctx.violation("J6", v, "the list written under 'rules' is not the unfiltered list of the specification's rules: a rule left out is lost (the loader can only "
+                      "re-create empty rules for *children*, not for the start class)")
+    w2 = W.get("root")
+    if w2 is not None and norm(w2) == "self.root.to_jsonable()":
+        ctx.ok("J6", "the start class is written")
+    else:
+        ctx.violation("J6", m.node, "the specification must write its start class under 'root'", construct="CombinatorialSpecification.to_jsonable root")
